@@ -51,6 +51,69 @@ func gExts(m map[string]interface{}) (string, error) {
 	return "(Some " + strings.TrimSuffix(strings.TrimPrefix(t, "(JObj "), ")") + ")", nil
 }
 
+// sameJSONValue: equal as Go values of the types a JSON decode into interface{} produces (nil, bool, float64, string,
+// []interface{}, map[string]interface{}); any other type on either side is a difference
+func sameJSONValue(a, b interface{}) bool {
+	switch x := a.(type) {
+	case nil:
+		return b == nil
+	case bool:
+		y, ok := b.(bool)
+		return ok && x == y
+	case float64:
+		y, ok := b.(float64)
+		return ok && x == y
+	case string:
+		y, ok := b.(string)
+		return ok && x == y
+	case []interface{}:
+		y, ok := b.([]interface{})
+		if !ok || len(x) != len(y) {
+			return false
+		}
+		for i := range x {
+			if !sameJSONValue(x[i], y[i]) {
+				return false
+			}
+		}
+		return true
+	case map[string]interface{}:
+		y, ok := b.(map[string]interface{})
+		if !ok || len(x) != len(y) {
+			return false
+		}
+		for k, v := range x {
+			w, ok := y[k]
+			if !ok || !sameJSONValue(v, w) {
+				return false
+			}
+		}
+		return true
+	}
+	return false
+}
+
+// inexact: the value holds a number outside the fragment the Coq model compares (integers of magnitude <= 2^53)
+func inexact(v interface{}) bool {
+	switch x := v.(type) {
+	case float64:
+		return x != math.Trunc(x) || math.Abs(x) > 1<<53
+	case []interface{}:
+		for _, e := range x {
+			if inexact(e) {
+				return true
+			}
+		}
+	case map[string]interface{}:
+		for _, e := range x {
+			if inexact(e) {
+				return true
+			}
+		}
+	}
+	return false
+}
+
 func validAttrs(a *message.Attributes) bool {
 	ok := utf8.ValidString(a.Username) && utf8.ValidString(a.Hostname) && utf8.ValidString(a.SSHClientVersion)
 	if a.TouchlessSudo != nil {
@@ -163,7 +226,7 @@ func genExtValue(r *rand.Rand, depth int) interface{} {
 	case 1:
 		return r.Intn(2) == 0
 	case 2, 3:
-		return core.Pick[float64](r, 0, 1, -1, 100, 65535, 1<<31, -(1 << 40), 9007199254740992, -9007199254740992, 4294967296, 7)
+		return core.Pick[float64](r, 0, 1, -1, 100, 65535, 1<<31, -(1 << 40), 9007199254740992, -9007199254740992, 4294967296, 7, 1<<60, -(1 << 62), 1e18, 9007199254740994, 9.2e18, -9.2e18, 1e19, 0.5, 1e-7)
 	case 4, 5, 6:
 		return core.GenText(r)
 	case 7:
@@ -453,6 +516,33 @@ func run(c *core.Ctx) {
 	r := c.Rng
 
 	emitRound := func(class string, a *message.Attributes) {
+		if a.Exts != nil && inexact(map[string]interface{}(a.Exts)) {
+			// numbers beyond 2^53 and fractions: outside the model's number fragment, judged on the Go values -
+			// a JSON-format set that is accepted comes back with an equal extension map (same values, same types)
+			var out string
+			var merr, uerr error
+			var back *message.Attributes
+			if p, msg := core.Guard(func() {
+				out, merr = a.Marshal()
+				if merr == nil {
+					back, uerr = message.Unmarshal(out)
+				}
+			}); p {
+				c.Native("panic in Attributes.Marshal / message.Unmarshal: "+msg, fmt.Sprintf("%+v", *a))
+				return
+			}
+			if _, isJSON := core.JSONTree([]byte(out)); merr == nil && isJSON {
+				if uerr != nil || back == nil || !sameJSONValue(map[string]interface{}(a.Exts), map[string]interface{}(back.Exts)) ||
+					back.Username != a.Username || back.Hostname != a.Hostname || back.SSHClientVersion != a.SSHClientVersion || back.IfVer != a.IfVer {
+					c.Native("a JSON-format attribute set with large or fractional numbers in its extension map does not come back equal",
+						map[string]interface{}{"text": out, "given": fmt.Sprintf("%#v", a.Exts), "decoded": fmt.Sprintf("%#v", back), "unmarshal_err": fmt.Sprint(uerr)})
+					return
+				}
+			}
+			c.NativeCheck(1)
+			c.Stat("attribute sets judged on the Go side (numbers outside the model's fragment)")
+			return
+		}
 		in, err := gAttrs(a)
 		if err != nil {
 			c.Note("skipped unrenderable attribute set: " + err.Error())
@@ -491,6 +581,16 @@ func run(c *core.Ctx) {
 				return
 			}
 			dec = d
+			// the extension map as Go values: what comes back has the same values of the same types (the trees
+			// compared in Coq are texts - two numbers of different Go types can print alike)
+			if _, isJSON := core.JSONTree([]byte(out)); isJSON && uerr == nil && back != nil && len(a.Exts) > 0 && len(back.Exts) > 0 {
+				if !sameJSONValue(map[string]interface{}(a.Exts), map[string]interface{}(back.Exts)) {
+					c.Native("the extension map does not come back equal (same text, different Go values or types)",
+						map[string]interface{}{"text": out, "given": fmt.Sprintf("%#v", a.Exts), "decoded": fmt.Sprintf("%#v", back.Exts)})
+				} else {
+					c.NativeCheck(1)
+				}
+			}
 		}
 		c.Case(class, core.GApp("CRound", in, enc, dec),
 			map[string]interface{}{"op": "Marshal then Unmarshal", "attributes": fmt.Sprintf("%+v ts=%+v", *a, a.TouchlessSudo), "text": out,
